@@ -212,6 +212,21 @@ class LazyRegistry(Generic[facets.QuantityT, facets.UnitT]):
         self.__init()
         return self(*args, **kwargs)
 
+    # Operators and built-ins look these up on the class, not on the instance:
+    # without them ``"meter" in registry`` and ``list(registry)`` would fall back
+    # to the sequence protocol (``__getitem__(0)``) on a registry not built yet.
+    def __contains__(self, item):
+        self.__init()
+        return item in self
+
+    def __iter__(self):
+        self.__init()
+        return iter(self)
+
+    def __dir__(self):
+        self.__init()
+        return dir(self)
+
 
 class ApplicationRegistry:
     """A wrapper class used to distribute changes to the application registry."""
